@@ -171,6 +171,11 @@ def visitVariableDefinitions (s : Schema) : List VarDef → V
           ⨾ emit (.leave (.varDef v)))
       ⨾ visitVariableDefinitions s vs
 
+/-- `visit_selection_set`, given the traversal of the items -/
+def selectionSetWith (sel : List Selection) (items : V) : V :=
+  withParentType
+    (emit (.enter (.selectionSet sel)) ⨾ items ⨾ emit (.leave (.selectionSet sel)))
+
 mutual
 def visitSelection (s : Schema) : Selection → V
   | .field pos alias name args dirs sel => fun st =>
@@ -181,7 +186,7 @@ def visitSelection (s : Schema) : Selection → V
           ⨾ withField fd
               (visitArguments s (fd.map (·.args)) args
                 ⨾ visitDirectives s dirs
-                ⨾ visitSelectionSet s sel)
+                ⨾ selectionSetWith sel (visitSelections s sel))
           ⨾ emit (.leave (.field f)))) st
   | .spread pos name dirs =>
       let sp : SpreadNode := ⟨pos, name, dirs⟩
@@ -189,19 +194,19 @@ def visitSelection (s : Schema) : Selection → V
   | .inline pos tc dirs sel =>
       let i : InlineNode := ⟨pos, tc, dirs, sel⟩
       let body : V :=
-        emit (.enter (.inline i)) ⨾ visitDirectives s dirs ⨾ visitSelectionSet s sel
+        emit (.enter (.inline i)) ⨾ visitDirectives s dirs ⨾ selectionSetWith sel (visitSelections s sel)
           ⨾ emit (.leave (.inline i))
       match tc with
       | some c => withType s (some (.named c)) body
       | none => body
-/-- `visit_selection_set` -/
-def visitSelectionSet (s : Schema) (sel : List Selection) : V :=
-  withParentType
-    (emit (.enter (.selectionSet sel)) ⨾ visitSelections s sel ⨾ emit (.leave (.selectionSet sel)))
 def visitSelections (s : Schema) : List Selection → V
   | [] => V.skip
   | x :: xs => visitSelection s x ⨾ visitSelections s xs
 end
+
+/-- `visit_selection_set` -/
+def visitSelectionSet (s : Schema) (sel : List Selection) : V :=
+  selectionSetWith sel (visitSelections s sel)
 
 def visitFragmentDefinition (s : Schema) (f : FragDef) : V :=
   emit (.enter (.fragmentDef f)) ⨾ visitDirectives s f.dirs ⨾ visitSelectionSet s f.sel
